@@ -76,15 +76,17 @@ CHECKS = {
         level='fault_enumeration',
         text='Per compiled model every single unbound event (user side, per registered client, component side) is tried in '
              'its own run; final construction must throw dzn::binding_error, and must succeed and record the parent when '
-             'nothing is omitted; late client registration must be refused.',
+             'nothing is omitted; a second final construction with the event still unbound must fail again, one after '
+             'binding it must succeed; an inner port of the mock component stands for ports the shell does not '
+             'expose; late client registration must be refused.',
         note=TRUST_CXX, design='C10'),
     'C11': dict(
         technique='generated thread schedules: harness-owned deterministic scheduler (bounded-exhaustive stateless DFS over <= 3 deviations + Hypothesis-sampled programs x dense / sparse / seeded pseudo-random-walk schedules) with a trace oracle, plus free-running perturbation fuzzing under ThreadSanitizer; MutexWrapped op-list fuzzing under TSan',
         text='Interleavings of 2-3 client threads, the dispatcher and an out-event raising environment are the generated '
              'input: all schedules up to a deviation bound are enumerated for the smallest program, larger programs are '
              'sampled; the claim-holder oracle is evaluated on the totally ordered trace, deadlocks are structural; '
-             'ThreadSanitizer decides data races / lock misuse on free runs. Bounded: hook-point granularity, <= 3 '
-             'clients, <= 3 cycles.',
+             'ThreadSanitizer decides data races / lock misuse on free runs. A third of the sampled schedules run with '
+             'lock-granularity scheduling points (interposed pthread_mutex_lock). Bounded: <= 3 clients, <= 3 cycles.',
         note=TRUST_CXX + '; harness-owned scheduler mockrt/verif_sched.hh; clang 14 ThreadSanitizer', design='C11'),
     'C12': dict(
         technique='model-based generation of build histories (operation sequences) with snapshot invariants and a differential against a fresh interpreter per build; failing histories delta-debugged',
@@ -108,7 +110,9 @@ CHECKS = {
     'C15': dict(
         technique=PBT + 'a crash/exception-class oracle over structurally mutated well-formed documents (and an injected-invalid-out-event clause); optional atheris campaign in thorough',
         text='Generated-input search: documents obtained from well-formed ASTs by 1-4 deletions/retypings/retaggings at '
-             'arbitrary depth; any exception other than the two documented classes is a violation; exploration.',
+             'arbitrary depth, plus documents nested as deeply as the JSON decoder accepts (1-512 namespaces) and a '
+             'second process() on the same instance; any exception other than the two documented classes is a '
+             'violation; exploration.',
         note=TRUST_PY + '; orjson as the JSON decoder', design='C15'),
     'C16': dict(
         technique='model-based generation of call histories (operation sequences interpreted against the real parser and a reference model), Hypothesis-driven and shrunk as one value',
